@@ -314,6 +314,25 @@ class LockStep:
             return ('eval-changed-state', f'eval-mode pass changed steps or memory usage ({mem} -> {dict(self.pre.memory_usage())})')
         return None
 
+    def inspect(self):
+        """Read-only looking operations a user may perform between two steps; none of them may change later behaviour."""
+        pre = self.pre
+        try:
+            repr(pre)
+            str(pre)
+            for k in HP_KEYS:
+                getattr(pre, k)
+            _ = pre.steps
+            pre.state_dict()
+            pre.state_dict(include_factors=False)
+            dict(pre.memory_usage())
+            for _name, layer in pre._layers.values():
+                repr(layer)
+                layer.memory_usage()
+        except Exception as e:  # noqa: BLE001
+            return ('exception', f'inspecting the preconditioner raised {type(e).__name__}: {e}')
+        return None
+
     def reset_batch(self):
         self.pre.reset_batch()
         self.ref.reset_batch()
